@@ -87,7 +87,7 @@ func (fr *Frame) call(ins *ssa.Call, c *ssa.CallCommon, reach *Term, st *State) 
 		return reach
 	}
 	vc.callCount[key]++
-	ordinal := vc.callCount[key]
+	ordinal := fr.sourceOrdinal(c, pos)
 	fc := e.Contracts[key]
 	if fc != nil && !fc.Inline {
 		return fr.applyContract(ins, fc, key, callee, args, c, reach, st, pos, ordinal)
@@ -256,12 +256,20 @@ func (fr *Frame) applyContract(ins *ssa.Call, fc *FuncContract, key string, call
 		}
 		return sc
 	}
+	fr.ghostArgs = args
 	fr.ghostStmts(key, ordinal, "before", st, reach)
+	fr.ghostArgs = nil
 	for i, rq := range fc.Requires {
 		sc := mk(st, st)
 		t, err := sc.compileBool(rq.Expr)
 		if err != nil {
 			vc.Errors = append(vc.Errors, fmt.Sprintf("requires %d of %s: %v", i+1, short, err))
+			continue
+		}
+		if vc.fc != nil && assumesPre(vc.fc, short) {
+			// the caller's contract declares this callee's preconditions an assumption of its own proof
+			vc.usedTrusted["precondition of "+short+" (assumed at the call sites in "+vc.short+")"] = true
+			vc.assume(reach, t)
 			continue
 		}
 		vc.oblige("call."+shortFn(short)+".pre", fr.lbl(clauseLabel(rq, i)), reach, t, fr.pos(pos), rq.Src, rq.Props, short)
@@ -350,10 +358,15 @@ func (fr *Frame) ghostStmts(key string, ordinal int, when string, st *State, rea
 	var here []*GhostStmt
 	cut := false
 	for _, gs := range vc.fc.Ghost {
-		if gs.When != when || gs.CallOrdinal != ordinal {
+		if gs.When != when || (gs.CallOrdinal != ordinal && gs.CallOrdinal != -1) {
 			continue
 		}
-		if !(gs.Callee == shortFn(short) || gs.Callee == short) {
+		if strings.HasSuffix(gs.Callee, "*") {
+			// name prefix: `@ before * mutate*` = before every call of a function whose name starts with mutate
+			if !strings.HasPrefix(shortFn(short), strings.TrimSuffix(gs.Callee, "*")) {
+				continue
+			}
+		} else if !(gs.Callee == shortFn(short) || gs.Callee == short) {
 			continue
 		}
 		here = append(here, gs)
@@ -403,6 +416,9 @@ func (fr *Frame) ghostAssert(gs *GhostStmt, st *State, reach *Term, assumeNow bo
 	}
 	for i, rv := range fr.ghostResults {
 		sc.vars[fmt.Sprintf("result%d", i)] = rv
+	}
+	for i, av := range fr.ghostArgs {
+		sc.vars[fmt.Sprintf("arg%d", i)] = av // arguments of the call the statement is anchored before (arg0 = receiver)
 	}
 	t, err := sc.compileBool(gs.Expr)
 	if err != nil {
@@ -730,7 +746,11 @@ func (e *Engine) designator(d, pkgPath string, ms *ModSet) {
 		if t == nil {
 			panic("bad modifies designator " + d)
 		}
-		ms.Vars["H."+typeKey(t)+"."+d[k+1:]] = true
+		if d[k+1:] == "*" {
+			ms.Vars["H."+typeKey(t)+"."] = true
+		} else {
+			ms.Vars["H."+typeKey(t)+"."+d[k+1:]] = true
+		}
 	}
 }
 
@@ -1037,4 +1057,53 @@ func (e *Engine) knownTypes() []types.Type {
 	}
 	knownTypesCache = out
 	return out
+}
+
+func assumesPre(fc *FuncContract, short string) bool {
+	for _, a := range fc.AssumePre {
+		if a == short || a == shortFn(short) {
+			return true
+		}
+	}
+	return false
+}
+
+// sourceOrdinal: the position of a call among the calls of the same simple name in the enclosing function, in SOURCE order
+// (1-based). Ghost statements, asserts and cuts are anchored with it (`@ after 2 duplicate` = the second duplicate call in the text).
+func (fr *Frame) sourceOrdinal(c *ssa.CallCommon, pos token.Pos) int {
+	name := callSimpleName(c)
+	if name == "" {
+		return 0
+	}
+	n := 1
+	for _, b := range fr.fn.Blocks {
+		for _, in := range b.Instrs {
+			ci, ok := in.(ssa.CallInstruction)
+			if !ok {
+				continue
+			}
+			cc := ci.Common()
+			if cc == c || callSimpleName(cc) != name {
+				continue
+			}
+			p := in.Pos()
+			if !p.IsValid() {
+				p = cc.Pos()
+			}
+			if p.IsValid() && p < pos {
+				n++
+			}
+		}
+	}
+	return n
+}
+
+func callSimpleName(c *ssa.CallCommon) string {
+	if c.IsInvoke() {
+		return c.Method.Name()
+	}
+	if f := c.StaticCallee(); f != nil {
+		return f.Name()
+	}
+	return ""
 }
